@@ -26,9 +26,9 @@ pub fn units(tier: &str, seed: u64) -> Vec<String> {
     if tier == "thorough" {
         for s in shapes {
             for fs in ["BAL", "CAN", "CEU"] {
-                v.push(unit(&[("shape", s), ("n", "1"), ("fs", fs), ("k", "0"), ("lm", "1")]));
+                v.push(unit(&[("shape", s), ("n", "1"), ("fs", fs), ("k", "0"), ("lm", "1"), ("bud", "900")]));
             }
-            v.push(unit(&[("shape", s), ("n", "2"), ("fs", "PEN"), ("k", "0"), ("lm", "0")]));
+            v.push(unit(&[("shape", s), ("n", "2"), ("fs", "PEN"), ("k", "0"), ("lm", "0"), ("bud", "900")]));
         }
     }
     v
